@@ -481,6 +481,36 @@ func c15Payload(c *cx) {
 				}
 			}
 			c.r.Check(id, f, "refusal arm: "+t.what+" -> "+t.cond, "K+G: the refusal answers with the corresponding stanza error and returns without touching the receive buffer", f.Pos(), okCond && okNoMut && okRet, "arm does not write "+t.cond+", or mutates readBuf, or does not return")
+			// ... and never disturbs the stream: nothing reachable from the
+			// refusal edge calls a method of the Conn (closeNoNotify, Close),
+			// withdraws its route or stores into one of its fields. The stream
+			// of a packet that was refused goes on as if the packet had not come.
+			disturbs := ""
+			for _, nd := range g.ReachableNodes(g.EdgeTarget(ce.E), nil) {
+				ast.Inspect(nd, func(x ast.Node) bool {
+					if cl, ok := x.(*ast.CallExpr); ok {
+						if cid := f.CalleeID(cl); strings.HasPrefix(cid, "ibb.Conn.") || cid == "ibb.Handler.rmStream" {
+							disturbs = cid + " at " + f.Prog.Pos(cl.Pos())
+						}
+					}
+					return true
+				})
+				if as, ok := nd.(*ast.AssignStmt); ok {
+					for _, l := range as.Lhs {
+						if k, isF := f.FieldClass(l); isF && strings.HasPrefix(k, "ibb.Conn.") {
+							disturbs = "store into " + k + " at " + f.Prog.Pos(as.Pos())
+						}
+					}
+				}
+				if ids, ok := nd.(*ast.IncDecStmt); ok {
+					if k, isF := f.FieldClass(ids.X); isF && strings.HasPrefix(k, "ibb.Conn.") {
+						disturbs = "store into " + k + " at " + f.Prog.Pos(ids.Pos())
+					}
+				}
+			}
+			if t.what != "unknown sid" {
+				c.r.Check(id, f, "refusal arm: "+t.what+" leaves the stream alone", "G: nothing reachable from the refusal edge calls a method of the Conn, withdraws its route or stores into its fields", f.Pos(), disturbs == "", disturbs+": one injected bad packet ends or corrupts a live transfer")
+			}
 		}
 	}
 	// data reaches the buffer only behind the passing facts
